@@ -37,6 +37,9 @@ def play(r, spec, fault, at):
         classes = ["ConnectionRefusedError", "DNSLookupError", "TCPTimedOutError", "NoRouteError", "ConnectError", "OSError"]
         play.n_refused = getattr(play, "n_refused", r.randrange(6)) + 1          # every class in turn
         spec.events = [("connectfailed", classes[play.n_refused % 6])]
+        play.n_refused_calls = getattr(play, "n_refused_calls", 0) + 1
+        if ((play.n_refused_calls - 1) // 6) % 2 == 0:
+            spec.timeout = None        # every class once without --timeout (then only the failure itself can end the run), then once with
         res = run_impl(spec)
         # with a timeout pending, let the timers run out
         return res
